@@ -135,8 +135,6 @@ fn body(n: usize, js: &[J], with_layout: bool, flag: Arc<AtomicBool>, phase: Arc
     // no lifting passes / inference rules are needed (and the default set costs ~300 ms to construct)
     let config = tc::Config { lifting_passes: LiftingPasses::new(Vec::<Box<dyn Lift>>::new()), inference_rules: InferenceRules::new() };
     let mut checker = TypeChecker::new(config, wd.clone());
-    let dbg = std::env::var("VX_C14_TIMING").is_ok();
-    if dbg { println!("T0 new {}", t0.elapsed().as_millis()); }
     let tv: Vec<TypeVariable> = {
         let state = unsafe { checker.state_mut() };
         // every variable is a constant storage slot, so that the layout conversion visits it
@@ -152,9 +150,7 @@ fn body(n: usize, js: &[J], with_layout: bool, flag: Arc<AtomicBool>, phase: Arc
                 J::Is(v, t) => state.infer(tv[*v], to_te(t, &tv)),
             }
         }
-        if dbg { println!("T1 registered {}", t0.elapsed().as_millis()); }
         if unification::unify(state, &wd).is_err() { return Err("unify"); }
-        if dbg { println!("T2 unified {}", t0.elapsed().as_millis()); }
         tv
     };
     let all: Vec<TypeVariable> = checker.state().variables();
@@ -168,7 +164,6 @@ fn body(n: usize, js: &[J], with_layout: bool, flag: Arc<AtomicBool>, phase: Arc
         let type_of = checker.type_of(v).map_err(|e| format!("{e:?}"));
         info.insert(v.index(), VarInfo { id: v.index(), root, data, type_of });
     }
-    if dbg { println!("T3 observed {}", t0.elapsed().as_millis()); }
     let layout = if with_layout {
         phase.store(true, Ordering::Relaxed);
         Some(match checker.unify() {
@@ -420,7 +415,7 @@ pub fn violations(n: usize, js: &[J], r: &Run) -> Vec<(&'static str, String, Str
     for (id, i) in &r.info {
         let fresh = !originals.contains(id);
         match &i.data {
-            None => out.push((if fresh { "unify.fresh_variables_resolved" } else { "unify.one_equality_free_type_per_variable" }, format!("{}: the result forest holds no data for it (type_of: {:?})", name(*id), i.type_of.as_ref().err()), "one resolved type".into())),
+            None => out.push((if fresh { "unify.fresh_variables_resolved" } else { "unify.one_equality_free_type_per_variable" }, format!("{}: the result forest holds no data for it (type_of: {})", name(*id), match &i.type_of { Ok(t) => format!("{t:?}"), Err(e) if e.contains("UnificationFailure") => "Err(UnificationFailure)".into(), Err(e) => format!("Err({})", &e[..e.len().min(120)]) }), "one resolved type".into())),
             Some(d) if d.len() > 1 => out.push(("unify.one_equality_free_type_per_variable", format!("{}: {} expressions left: {:?}", name(*id), d.len(), d), "exactly one".into())),
             Some(d) => {
                 if d.iter().any(has_equal) { out.push(("unify.one_equality_free_type_per_variable", format!("{}: {:?}", name(*id), d), "no Equal".into())); }
@@ -474,17 +469,17 @@ pub fn violations(n: usize, js: &[J], r: &Run) -> Vec<(&'static str, String, Str
         if !seen.insert(id) { continue; }
         match r.info.get(&id) {
             None => out.push(("unify.fresh_variables_resolved", format!("{} (inside the type of {}) is unknown to the state", name(id), name(from)), "a resolved type".into())),
-            Some(i) => match &i.type_of {
-                Err(e) => { if i.data.is_some() || originals.contains(&id) { /* reported above */ } else { let _ = e; } }
-                Ok(t) => { let mut m = Vec::new(); mentioned(t, &mut m); todo.extend(m.into_iter().map(|x| (x, id))); }
-            },
+            // (a variable without a resolved type is reported by the first loop: no data => fresh_variables_resolved)
+            Some(i) => if let Ok(t) = &i.type_of { let mut m = Vec::new(); mentioned(t, &mut m); todo.extend(m.into_iter().map(|x| (x, id))); },
         }
     }
 
     // the layout conversion must not meet a class with several expressions or a leftover equality
     if let Some(Err(e)) = &r.layout {
-        if e.contains("UnificationIncomplete") || e.contains("UnificationFailure") || e.contains("Equalities cannot be converted") {
-            out.push(("unify.one_equality_free_type_per_variable", format!("layout conversion failed: {}", &e[..e.len().min(300)]), "every class resolved".into()));
+        if e.contains("UnificationFailure") {
+            out.push(("unify.fresh_variables_resolved", format!("layout conversion (abi_type_for) failed: {}", &e[..e.len().min(300)]), "every variable inside a resolved type is resolved".into()));
+        } else if e.contains("UnificationIncomplete") || e.contains("Equalities cannot be converted") {
+            out.push(("unify.one_equality_free_type_per_variable", format!("layout conversion (abi_type_for) failed: {}", &e[..e.len().min(300)]), "every class resolved to one equality-free type".into()));
         }
     }
     out.sort();
@@ -499,7 +494,7 @@ fn run_and_report(n: usize, js: &[J], budget: Duration, reported: &mut BTreeMap<
     const PER_OBLIGATION: u32 = 3;
     match run(n, js, true, budget) {
         Outcome::Done(r) => {
-            if std::env::var("VX_C14_TIMING").is_ok() { println!("TIMING n={n} judgements={} vars_after={} ms={}", js.len(), r.info.len(), r.millis); }
+            if std::env::var("VX_C14_DEBUG").is_ok() { println!("TIMING n={n} judgements={} vars_after={} ms={}", js.len(), r.info.len(), r.millis); }
             let vs = violations(n, js, &r);
             let mut done: BTreeSet<&'static str> = BTreeSet::new();
             for (ob, _, _) in &vs {
@@ -563,7 +558,7 @@ fn c14_random_judgement_sets() {
         let mut rng = Rng::seeded(14_000 + salt);
         let n = if scale() > 1 && salt % 4 == 0 { 13 + rng.below(28) as usize } else { 2 + rng.below(11) as usize };
         let js = gen_set(&mut rng, n);
-        if !unfiltered && may_hit_d13(n, &js) { skipped += 1; if skipped <= 12 && std::env::var("VX_C14_TIMING").is_ok() { println!("SKIP {}", show_js(n, &js)); } if skipped > 50 * rounds { break; } continue; }
+        if !unfiltered && may_hit_d13(n, &js) { skipped += 1; if skipped <= 12 && std::env::var("VX_C14_DEBUG").is_ok() { println!("SKIP {}", show_js(n, &js)); } if skipped > 50 * rounds { break; } continue; }
         round += 1;
         cases += 1;
         run_and_report(n, &js, Duration::from_secs(5), &mut reported, "unify.terminates");
@@ -620,4 +615,81 @@ fn c14_d13_cyclic_packed_with_sized_word() {
     let mut cases = 0;
     for (n, js) in &sets { run_and_report(*n, js, Duration::from_secs(5), &mut reported, "unify.terminates"); cases += 1; }
     println!("CASES c14_d13 {cases}");
+}
+
+/// `TypeChecker::type_of` on hand-built result forests: exactly one expression => that expression, none => Any,
+/// several => Err(UnificationIncomplete), no data at all => Err(UnificationFailure).  (After the real `unify` no
+/// class ever holds several expressions, so this half of C14 is only observable on a forest set by hand.)
+#[test]
+fn c14_type_of_demands_exactly_one_expression() {
+    use std::collections::HashSet;
+    use storage_layout_extractor::{tc::unification::UnificationForest, watchdog::LazyWatchdog};
+    std::panic::set_hook(Box::new(|_| {}));
+    let pool: Vec<TE> = vec![TE::address(), TE::bool(), TE::Bytes, TE::Any, TE::unsigned_word(Some(64)), TE::signed_word(None), TE::conflict(TE::Bytes, TE::bool(), "seed")];
+    let mut cases = 0u64;
+    let mut shown = 0;
+    for round in 0..200u64 {
+        let mut rng = Rng::seeded(14_900 + round);
+        let r = catch_unwind(AssertUnwindSafe(|| {
+            let config = tc::Config { lifting_passes: LiftingPasses::new(Vec::<Box<dyn Lift>>::new()), inference_rules: InferenceRules::new() };
+            let mut checker = TypeChecker::new(config, LazyWatchdog.in_rc());
+            let state = unsafe { checker.state_mut() };
+            let n = 2 + rng.below(5) as usize;
+            let tv: Vec<TypeVariable> = (0..n).map(|i| state.register(RSV::new_value(i as u32, Provenance::Synthetic))).collect();
+            let mut forest = UnificationForest::new();
+            let mut uf = Uf::new(n);
+            // None = never given data
+            let mut model: Vec<Option<Vec<TE>>> = vec![None; n];
+            let mut log = Vec::new();
+            for v in &tv { forest.insert(*v); }
+            for _ in 0..rng.below(2 * n as u64 + 1) {
+                let (a, b) = (rng.below(n as u64) as usize, rng.below(n as u64) as usize);
+                if rng.below(3) == 0 {
+                    log.push(format!("union(v{a},v{b})"));
+                    forest.union(&tv[a], &tv[b]);
+                    let (ra, rb) = (uf.find(a), uf.find(b));
+                    if ra != rb {
+                        uf.union(a, b);
+                        let keep = uf.find(a);
+                        let mut m: Vec<TE> = model[ra].take().unwrap_or_default();
+                        for e in model[rb].take().unwrap_or_default() { if !m.contains(&e) { m.push(e); } }
+                        model[keep] = Some(m);
+                    }
+                } else {
+                    let k = rng.below(3);
+                    let es: Vec<TE> = (0..k).map(|_| pool[rng.below(pool.len() as u64) as usize].clone()).collect();
+                    log.push(format!("add_data(v{a},{es:?})"));
+                    forest.add_data(&tv[a], es.iter().cloned().collect::<HashSet<_>>());
+                    let ra = uf.find(a);
+                    let mut m: Vec<TE> = model[ra].take().unwrap_or_default();
+                    for e in es { if !m.contains(&e) { m.push(e); } }
+                    model[ra] = Some(m);
+                }
+            }
+            state.set_result(forest);
+            let mut bad = Vec::new();
+            for v in 0..n {
+                let got = checker.type_of(tv[v]).map_err(|e| format!("{e:?}"));
+                let m = model[uf.find(v)].clone();
+                let ok = match (&m, &got) {
+                    (None, Err(e)) => e.contains("UnificationFailure"),
+                    (Some(m), Ok(t)) if m.is_empty() => *t == TE::Any,
+                    (Some(m), Ok(t)) if m.len() == 1 => *t == m[0],
+                    (Some(m), Err(e)) if m.len() > 1 => e.contains("UnificationIncomplete"),
+                    _ => false,
+                };
+                if !ok {
+                    let want = match &m { None => "Err(UnificationFailure)".to_string(), Some(m) if m.is_empty() => "Ok(Any)".into(), Some(m) if m.len() == 1 => format!("Ok({:?})", m[0]), Some(m) => format!("Err(UnificationIncomplete): the class holds {} expressions {m:?}", m.len()) };
+                    bad.push((format!("forest built by [{}]; type_of(v{v})", log.join(", ")), format!("{got:?}"), want));
+                }
+            }
+            bad
+        }));
+        cases += 1;
+        match r {
+            Ok(bad) => { if let Some((i, g, w)) = bad.into_iter().next() { shown += 1; if shown <= 3 { witness("C14", "type_of.exactly_one_expression", i, g.chars().take(300).collect(), w); } } }
+            Err(_) => { shown += 1; if shown <= 3 { witness("C14", "type_of.exactly_one_expression", format!("round {round}"), "PANIC".into(), "Ok or Err".into()); } }
+        }
+    }
+    println!("CASES c14_type_of {cases}");
 }
